@@ -54,6 +54,34 @@ func execute(t *testing.T, scn *Scenario, tape *Tape, trace bool) (res *RunResul
 			res.Violations = append(res.Violations, Violation{Class: "harness-panic", Detail: msg + "\n" + string(buf[:n])})
 		}
 	}()
+	// A subtest per run: when the race detector (or anything else) fails the bubble's test, synctest.Test calls FailNow,
+	// which must only end this run's goroutine, not the worker loop.
+	t.Run("run", func(t *testing.T) {
+		defer func() {
+			if r := recover(); r != nil {
+				msg := fmt.Sprint(r)
+				if res != nil && strings.Contains(msg, "deadlock") {
+					return // goroutines still blocked when the bubble's root returned; already reported as leaks
+				}
+				buf := make([]byte, 16<<10)
+				n := runtime.Stack(buf, false)
+				if res == nil {
+					res = &RunResult{Tape: append([]uint32(nil), tape.Recorded()...), Faults: map[string]int{}, Hits: map[string]int64{}}
+				}
+				res.Violations = append(res.Violations, Violation{Class: "harness-panic", Detail: msg + "\n" + string(buf[:n])})
+			}
+		}()
+		execBubble(t, scn, tape, trace, &res)
+	})
+	if raceBuild && res != nil {
+		res.Violations = append(res.Violations, collectRaces()...)
+	}
+	return res
+}
+
+func execBubble(t *testing.T, scn *Scenario, tape *Tape, trace bool, out **RunResult) {
+	var res *RunResult
+	defer func() { *out = res }()
 	synctest.Test(t, func(t *testing.T) {
 		w := NewWorld(tape, scn.Name, trace)
 		defer w.Close()
@@ -97,6 +125,6 @@ func execute(t *testing.T, scn *Scenario, tape *Tape, trace bool) (res *RunResul
 			}
 		}
 		res = w.result()
+		*out = res
 	})
-	return res
 }
